@@ -31,6 +31,11 @@ CARET_NAMES = ["caret_1", "caret_2", "caret_3", "caret_4", "vcaret_1", "vcaret_2
 CARET_COORDS = [100, 300, 300.5, 50, 0, -40]
 CURS_GLYPHS = [("a", 0x61), ("beh-ar", 0x628), ("period", 0x2E), ("x.alt", None)]
 # (a second unencoded alternate "y.alt" exists only in the two-rule designspace states)
+# how the unencoded alternate is reached from the Latin letter: directly, or only together with a
+# script-neutral glyph (ligature component / context)
+GSUB_SHAPES = {"single": "feature salt { sub a by x.alt; } salt;\n",
+               "lig-neutral": "feature liga { sub a period by x.alt; } liga;\n",
+               "ctx-neutral": "feature calt { sub a' period by x.alt; } calt;\n"}
 CURS_SHAPES = ["none", "entry", "exit", "both", "ltr", "rtl", "swsh"]  # swsh: entry.swsh + exit.swsh
 ENTRY, EXIT = (0, 10.5), (500.5, -0.5)
 
@@ -84,6 +89,9 @@ class C18(Property):
         for combo in itertools.product(range(len(CURS_SHAPES)), repeat=len(CURS_GLYPHS)):
             for gs in b["curs_gsub"]:
                 out.append([{"part": "curs", "shapes": list(combo), "gsub": gs}])
+            if combo[3] != 0 and combo[2] in (0, 3):
+                for gs in ("lig-neutral", "ctx-neutral"):
+                    out.append([{"part": "curs", "shapes": list(combo), "gsub": gs}])
             if combo[0] == 0:
                 # a font without any left-to-right glyph at all (the Latin glyph is absent)
                 out.append([{"part": "curs", "shapes": list(combo), "gsub": False, "nolatin": True}])
@@ -219,7 +227,7 @@ class C18(Property):
             glyphs[n] = g
         spec = {"glyphs": glyphs, "order": list(glyphs)}
         if c["gsub"]:
-            spec["features"] = "feature salt { sub a by x.alt; } salt;\n"
+            spec["features"] = GSUB_SHAPES[c["gsub"] if isinstance(c["gsub"], str) else "single"]
         if c.get("ds"):
             import ufo2ft
             rules = [{"name": "r", "conditionSets": [[{"name": "Weight", "minimum": 600, "maximum": 700}]],
@@ -234,7 +242,11 @@ class C18(Property):
                           "subs": [("a", "x.alt")]},
                          {"name": "r2", "conditionSets": [[{"name": "Weight", "minimum": 600, "maximum": 700}]],
                           "subs": [("a", "y.alt")]}]
-            spec2 = dict(spec, info={"styleName": "Bold"})
+            # the second master's anchors are elsewhere (fractional too): the default values of the varying
+            # anchors must still be the default master's coordinates rounded like in a static font
+            spec2 = dict(spec, info={"styleName": "Bold"},
+                         glyphs={n: dict(g, anchors=[(a[0], a[1] + 20.25, a[2] - 7.5) for a in g.get("anchors", ())])
+                                 for n, g in glyphs.items()})
             ds = B.build_designspace([{"name": "Weight", "tag": "wght", "min": 400, "default": 400, "max": 700}],
                                      [{"spec": spec, "location": {"Weight": 400}},
                                       {"spec": spec2, "location": {"Weight": 700}}], rules=rules)
@@ -268,6 +280,10 @@ class C18(Property):
         lay = O.Layout(tt)
         recs = lay.cursive_records()
         rE, rX = (otround(ENTRY[0]), otround(ENTRY[1])), (otround(EXIT[0]), otround(EXIT[1]))
+        if c.get("ds") is True:
+            # the per-master path is observed on the SECOND master, whose anchors are moved
+            rE = (otround(ENTRY[0] + 20.25), otround(ENTRY[1] - 7.5))
+            rX = (otround(EXIT[0] + 20.25), otround(EXIT[1] - 7.5))
         ltr_glyphs = {"a"} | ({"x.alt"} if c["gsub"] or c.get("ds_rule") else set()) | \
             ({"y.alt"} if c.get("ds_rule") == 2 else set())
         has_entry = any(s in ("entry", "both") for s in shapes.values())
